@@ -318,6 +318,46 @@ func c04(c *ctx) {
 		}
 		c4run(c, c4case{m: m, key: c4key(r), f: refFrame{sid: 1, seq: 9, payload: nil}, bufLen: c4limit}, fmt.Sprintf("empty m=%d", m))
 	}
+	// --- the session's own per-frame maximum in the session's own send buffer, many padding draws: the message
+	// must be produced and must not exceed the session's limit (monitor only; the bytes are not sent to the driver) ---
+	if sess, err := mux.VerifMakeSession(0, [32]byte{}, c4limit, false); err == nil {
+		maxUnit, sendBuf, limit := sess.MaxUnit(), sess.SendBuf(), sess.Limit()
+		nd := 1500
+		if c.thorough() {
+			nd = 8000
+		}
+		for m := 0; m <= 3; m++ {
+			key := c4key(r)
+			ob, err := mux.VerifMakeObfuscator(byte(m), key)
+			if err != nil || maxUnit < 1 {
+				continue
+			}
+			for k := 0; k < nd; k++ {
+				f := c4frame(r, maxUnit)
+				f.seq = uint64(k % 5)
+				buf := make([]byte, sendBuf)
+				n, errs, pan := ob.Obfuscate(f.sid, f.seq, f.closing, f.payload, buf, k%2 == 0, 0)
+				in := map[string]any{"m": m, "key": hx(key[:]), "sid": f.sid, "seq": f.seq, "closing": f.closing, "payload_len": maxUnit,
+					"payload_fnv": fnvHex(f.payload), "buf_len": sendBuf, "session_limit": limit, "draw_index": k}
+				switch {
+				case pan != "":
+					o.V("C04 obfuscate-panicked", map[string]any{"input": in, "panic": pan})
+				case errs != "":
+					o.V("C04 obfuscate-refused-valid-frame", map[string]any{"input": in, "err": errs})
+				case n > limit || n > 16640:
+					in["go_msg_len"] = n
+					o.V("C04 message-exceeds-limit", map[string]any{"input": in, "limit": limit})
+				default:
+					if d, derr := refDecode(m, key, buf[:n]); derr != "" || !refFrameEq(d.f, f) {
+						in["go_msg_len"] = n
+						o.V("C04 go-encoding-not-decodable-by-reference", map[string]any{"input": in, "reference_error": derr})
+					}
+				}
+				o.stat("max_payload_draws", 1)
+			}
+		}
+		o.case_("max-payload draws", true)
+	}
 	// --- reference-encoded messages with chosen padding, decoded by the real decoder ---
 	nref := 40
 	if c.thorough() {
